@@ -160,7 +160,9 @@ func main() {
 	b := build(p)
 	defer b.cleanup()
 	if *replay != "" {
-		os.Exit(doReplay(p, b, *replay))
+		code := doReplay(p, b, *replay)
+		b.cleanup()
+		os.Exit(code)
 	}
 	budget := p.QuickS
 	if tier == "thorough" {
@@ -189,7 +191,22 @@ func (b *built) cleanup() {
 	}
 }
 
+// removeStale deletes build directories left behind by checks that were killed.
+func removeStale() {
+	ents, _ := os.ReadDir(filepath.Join(verifDir, ".gen"))
+	for _, e := range ents {
+		pid, err := strconv.Atoi(e.Name())
+		if err != nil {
+			continue
+		}
+		if _, err := os.Stat(fmt.Sprintf("/proc/%d", pid)); err != nil {
+			os.RemoveAll(filepath.Join(verifDir, ".gen", e.Name()))
+		}
+	}
+}
+
 func build(p propDef) *built {
+	removeStale()
 	dir := filepath.Join(verifDir, ".gen", strconv.Itoa(os.Getpid()))
 	os.RemoveAll(dir)
 	if err := os.MkdirAll(dir, 0o755); err != nil {
